@@ -128,6 +128,8 @@ psgstrf_thread_init(SuperMatrix *A, SuperMatrix *L, SuperMatrix *U,
     /* Identify relaxed supernodes at the bottom of the etree. */
     pxgstrf_relax = (pxgstrf_relax_t *)
         SUPERLU_MALLOC( (size_t) (n+2) * sizeof(pxgstrf_relax_t) );
+    if ( !pxgstrf_relax )
+	SUPERLU_ABORT("SUPERLU_MALLOC fails for pxgstrf_relax[]");
 
 #if 0
     if ( options->SymmetricMode == YES ) {
@@ -167,6 +169,8 @@ psgstrf_thread_init(SuperMatrix *A, SuperMatrix *L, SuperMatrix *U,
     /* Prepare arguments to all threads. */
     psgstrf_threadarg = (psgstrf_threadarg_t *) 
         SUPERLU_MALLOC(nprocs * sizeof(psgstrf_threadarg_t));
+    if ( !psgstrf_threadarg )
+	SUPERLU_ABORT("SUPERLU_MALLOC fails for psgstrf_threadarg[]");
     for (i = 0; i < nprocs; ++i) {
         psgstrf_threadarg[i].pnum = i;
         psgstrf_threadarg[i].info = 0;
